@@ -16,9 +16,10 @@ func H_C04_full_MODELNAME() { c04vectorised("MODELNAME", 2, 2, 2, 1, 0, 0) }
 // H_C04_mixa_MODELNAME: 4 cells, 3 parameter sets, 2 input blocks (set and block indices decouple:
 // cell 2 uses set 2 but block 0, cell 3 set 0 but block 1), 1 timestep.
 //vsym:prop=C04 tier=quick ints=int floats=real timeout=60 wall=240 cut=3 unwind=80
-func H_C04_mixa_MODELNAME() { c04vectorised("MODELNAME", 4, 3, 2, 1, 0, 0) }
+func H_C04_mixa_MODELNAME() { c04vectorised("MODELNAME", 4, 3, 2, 1, 1, 0) }
 
-// H_C04_mixb_MODELNAME: 4 cells, 2 parameter sets, 3 input blocks, 2 timesteps.
+// H_C04_mixb_MODELNAME: 4 cells, 2 parameter sets, 3 input blocks, 2 timesteps; the output array has
+// one timestep more than the inputs and is passed to Run as it is.
 //vsym:prop=C04 tier=quick ints=int floats=real timeout=60 wall=240 cut=3 unwind=80
 func H_C04_mixb_MODELNAME() { c04vectorised("MODELNAME", 4, 2, 3, 2, 0, 1) }
 
